@@ -194,7 +194,7 @@ inductive Event
   | ackObs (c : Nat)            -- observation: Batch returned nil (safe) / callback(nil) for batch c
   | cleanupRemoveSnap (e : Nat) (ok : Bool)
   | cleanupRemoveSeg (sid : Nat) (ok : Bool)
-  | readerOpen (rid : Nat)
+  | readerOpen (rid : Nat) (k : Nat) (segs : List Nat)   -- Writer.Reader(): a root (content k) is pinned, its segment files stay open
   | readerClose (rid : Nat)
   | fault (f : FaultKind)
   | crash
@@ -378,9 +378,9 @@ def stepCleanupSeg (s : State) (sid : Nat) (ok : Bool) : Option State :=
     else some s
   else none
 
-def stepReaderOpen (s : State) (rid : Nat) : Option State :=
-  if s.isOpen = true ∧ (∀ r ∈ s.readers, r.rid ≠ rid) then
-    some { s with readers := { rid := rid, k := s.applied, segs := rootFiles s } :: s.readers }
+def stepReaderOpen (s : State) (rid k : Nat) (segs : List Nat) : Option State :=
+  if s.isOpen = true ∧ k ≤ s.applied ∧ (∀ r ∈ s.readers, r.rid ≠ rid) then
+    some { s with readers := { rid := rid, k := k, segs := segs } :: s.readers }
   else none
 
 def stepReaderClose (s : State) (rid : Nat) : Option State :=
@@ -433,7 +433,7 @@ def step (s : State) : Event → Option State
   | .ackObs c => if c ∈ s.acked then some s else none
   | .cleanupRemoveSnap e ok => stepCleanupSnap s e ok
   | .cleanupRemoveSeg sid ok => stepCleanupSeg s sid ok
-  | .readerOpen rid => stepReaderOpen s rid
+  | .readerOpen rid k segs => stepReaderOpen s rid k segs
   | .readerClose rid => stepReaderClose s rid
   | .fault f => stepFault s f
   | .crash => stepCrash s
@@ -456,5 +456,19 @@ inductive Reachable (n : Nat) : State → Prop
 inductive Later : State → State → Prop
   | refl (s : State) : Later s s
   | step {s s' s'' : State} (ev : Event) : Later s s' → ev.exact = true → step s' ev = some s'' → Later s s''
+
+/-! ## Specification -/
+
+/-- every segment file the snapshot names is on disk and complete -/
+def segmentsComplete (d : Disk) (f : SnapFile) : Prop := ∀ x ∈ f.segs, d.segOK x = true
+
+/-- the snapshot contains batch `c` (its content is `absAfter k` with `k ≥ introIndex c`) -/
+def covers (f : SnapFile) (c : Nat) : Prop := c ≤ f.k
+
+def completeSnapshots (d : Disk) : List SnapFile := d.snaps.filter (·.complete)
+
+/-- the durability invariant of C02 -/
+def Durable (s : State) : Prop :=
+  ∀ c ∈ s.acked, ∃ f ∈ completeSnapshots s.disk, segmentsComplete s.disk f ∧ covers f c
 
 end Bluge.Persist
